@@ -690,12 +690,18 @@ def get_bv_width(node):  # noqa: C901
         return -1
     if is_indexed_operator_app(node, 'zero_extend') \
        or is_indexed_operator_app(node, 'sign_extend'):
-        return get_indices(node[0], node[0][1])[0] + get_bv_width(node[1])
+        bw = get_bv_width(node[1])
+        if bw < 0:
+            return -1
+        return get_indices(node[0], node[0][1])[0] + bw
     if is_indexed_operator_app(node, 'extract', 2):
         idx = get_indices(node[0], 'extract', 2)
         return idx[0] - idx[1] + 1
     if is_indexed_operator_app(node, 'repeat'):
-        return get_indices(node[0], 'repeat')[0] * get_bv_width(node[1])
+        bw = get_bv_width(node[1])
+        if bw < 0:
+            return -1
+        return get_indices(node[0], 'repeat')[0] * bw
     if is_indexed_operator_app(node, 'rotate_left') \
        or is_indexed_operator_app(node, 'rotate_right'):
         return get_bv_width(node[1])
@@ -727,7 +733,10 @@ def get_bv_width(node):  # noqa: C901
         ]:
             return get_bv_width(node[1])
         if ident == 'concat':
-            return sum(map(get_bv_width, node[1:]))
+            bws = list(map(get_bv_width, node[1:]))
+            if any(bw < 0 for bw in bws):
+                return -1
+            return sum(bws)
         if ident == 'bvcomp':
             return 1
         if ident == 'ite':
